@@ -4,19 +4,25 @@ Local Open Scope Z_scope.
 
 (* the replace chain of rewrite_text, after the strip *)
 Definition rw (s : text) : text :=
-  let s := replace [92;110;92;114] [10] s in
+  let s := replace [10;13] [10] s in
   let s := replace (brace false t_bold) (angle false t_bold) s in
   let s := replace (brace true t_bold) (angle true t_bold) s in
   let s := replace (brace false t_italic) (angle false t_italic) s in
   let s := replace (brace true t_italic) (angle true t_italic) s in
   let s := replace (brace false t_underline) (angle false t_underline) s in
-  replace (brace true t_underline) (angle true t_underline) s.
+  let s := replace (brace true t_underline) (angle true t_underline) s in
+  let s := replace (brace false t_b) (angle false t_b) s in
+  let s := replace (brace true t_b) (angle true t_b) s in
+  let s := replace (brace false t_i) (angle false t_i) s in
+  let s := replace (brace true t_i) (angle true t_i) s in
+  let s := replace (brace false t_u) (angle false t_u) s in
+  replace (brace true t_u) (angle true t_u) s.
 Lemma rewrite_text_rw s : rewrite_text s = rw (strip_crlf s).
 Proof. reflexivity. Qed.
 
 (* what the property asks of the text of one cue: the paragraph's children flatten to the cue's items *)
 Definition payload_good (p : list node) : Prop :=
-  exists kids, parse_text true (rw (print_nodes p)) = Ok kids /\ flat_list st0 kids = items_list st0 p.
+  exists kids, parse_text (rw (print_nodes p)) = Ok kids /\ flat_list st0 kids = items_list st0 p.
 
 (* ------------------------------------------------------------------ split / strip *)
 Lemma split_lf_nonempty s : split_lf s <> [].
@@ -41,9 +47,9 @@ Lemma concat_split_lf s : concat (with_lf (split_lf s)) = s ++ [10].
 Proof.
   induction s as [|c s IH]; [reflexivity|]. cbn [split_lf].
   destruct (c =? 10) eqn:E.
-  - cbn [with_lf map concat app]. fold (with_lf (split_lf s)). rewrite IH. f_equal. lia.
+  - unfold with_lf, with_eol in *. cbn [map concat app]. rewrite IH. f_equal. lia.
   - destruct (split_lf s) eqn:F; [destruct (split_lf_nonempty s F)|].
-    cbn [with_lf map concat app] in *. rewrite <- IH. reflexivity.
+    unfold with_lf, with_eol in *. cbn [map concat app] in *. rewrite <- IH. reflexivity.
 Qed.
 
 Lemma split_lf_no_lf s : Forall no_lf (split_lf s).
@@ -115,13 +121,10 @@ Proof.
 Qed.
 
 (* ------------------------------------------------------------------ replace *)
+Fixpoint has_sub (p s : text) : bool :=
+  prefixb p s || match s with [] => false | _ :: s' => has_sub p s' end.
 Lemma has_sub_prefixb p s : has_sub p s = prefixb p s || match s with [] => false | _ :: s' => has_sub p s' end.
-Proof.
-  assert (P : forall p s, (fix pre (p s : text) : bool :=
-     match p, s with [], _ => true | x :: p', y :: s' => (x =? y) && pre p' s' | _ :: _, [] => false end) p s = prefixb p s).
-  { clear. induction p as [|x p IH]; intros [|y s]; cbn; try reflexivity; try (rewrite IH; reflexivity). }
-  destruct s; cbn [has_sub]; rewrite P; reflexivity.
-Qed.
+Proof. destruct s; reflexivity. Qed.
 
 Lemma replace_id pat rep s : has_sub pat s = false -> replace pat rep s = s.
 Proof.
@@ -140,9 +143,18 @@ Proof.
     cbn [prefixb]. replace (x =? c) with false by lia. reflexivity.
 Qed.
 
-Lemma rw_id s : lacks 123 s -> has_sub [92;110;92;114] s = false -> rw s = s.
+(* the "\n\r" of the replace chain (LF CR) does not occur in a text without CR *)
+Lemma has_sub_lfcr s : no_cr s -> has_sub [10;13] s = false.
 Proof.
-  intros H1 H2. unfold rw. rewrite (replace_id _ _ s H2).
+  unfold no_cr. induction s as [|c s IH]; intro H; rewrite has_sub_prefixb; [reflexivity|].
+  cbn [forallb] in H. apply andb_true_iff in H as [H1 H2]. rewrite IH by auto. rewrite orb_false_r.
+  cbn [prefixb]. destruct s as [|d s]; [apply andb_false_r|].
+  cbn [forallb] in H2. apply andb_true_iff in H2 as [H3 _]. replace (13 =? d) with false by lia. cbn [andb]. apply andb_false_r.
+Qed.
+
+Lemma rw_id s : lacks 123 s -> no_cr s -> rw s = s.
+Proof.
+  intros H1 H2. apply has_sub_lfcr in H2. unfold rw. rewrite (replace_id _ _ s H2).
   unfold brace. cbn [app]. repeat (rewrite (replace_id _ _ s) by auto using has_sub_lacks). reflexivity.
 Qed.
 
@@ -225,7 +237,7 @@ Proof.
 Qed.
 
 Lemma parse_plain t : t <> [] -> lacks 60 t -> lacks 38 t ->
-  parse_text true t = Ok (data_kids true (split_lf t)).
+  parse_text t = Ok (data_kids true (split_lf t)).
 Proof.
   intros. unfold parse_text. rewrite tokenize_data by auto. cbn [handle handle_data push_kids close_all app].
   rewrite app_nil_r. reflexivity.
@@ -236,10 +248,9 @@ Qed.
 Theorem plain_payload_good p :
   forallb plain_node p = true -> forallb wf_node p = true ->
   forallb (fun l => negb (all_ws l)) (payload_lines p) = true ->
-  has_sub [92;110;92;114] (print_nodes p) = false ->
   payload_good p /\ no_cr (print_nodes p).
 Proof.
-  intros Hp Hw Hl Hb. destruct (plain_print p Hp Hw) as (A & B & C & D & E).
+  intros Hp Hw Hl. destruct (plain_print p Hp Hw) as (A & B & C & D & E).
   split; auto. unfold payload_good. rewrite rw_id by auto.
   rewrite payload_lines_split in Hl.
   destruct (first_line_nonblank _ Hl) as (a & t1 & E1 & _).
